@@ -98,13 +98,27 @@ Why(e) ==
     [] e.op = "from_f" -> FromFWhy(e)
     [] OTHER -> "unknown-op"
 
-VARIABLES l, bad
-Init == l = 1 /\ bad = <<>>
+\* ---------------------------------------------------------------- beyond the statement: the layout of a padded float
+\* C08 speaks about the digits; these observations are reported separately ("beyond") and never as a violation.
+\* A print event may carry `pads`: the same value and precision printed with a width.  Each must be the unpadded text
+\* (with '+' when asked for) laid out as core::fmt pads a number: TextDef!Layout with the sign split off.
+SplitSign(t) == IF Len(t) >= 1 /\ t[1] \in {CMinus, CPlus} THEN <<SubSeq(t, 1, 1), SubSeq(t, 2, Len(t))>> ELSE <<(<<>>), t>>
+PadItemWhy(pd, it) ==
+  IF it.out.k # "ok" THEN "beyond:padded-print-panics"
+  ELSE LET sp == SplitSign(IF it.plus THEN pd.plus ELSE pd.plain)
+       IN IF it.out.text = Layout(sp[1], <<>>, sp[2], it.w, <<it.fill>>, it.align, it.zero) THEN "" ELSE "beyond:float-layout-mismatch"
+HasPads(e) == e.op = "print" /\ "pads" \in DOMAIN e
+BeyondWhy(e) == IF ~HasPads(e) THEN "" ELSE FirstWhy([i \in 1..Len(e.pads.items) |-> PadItemWhy(e.pads, e.pads.items[i])])
+
+VARIABLES l, bad, byd, nbyd
+Init == l = 1 /\ bad = <<>> /\ byd = <<>> /\ nbyd = 0
 Next == /\ l <= Len(Rec)
         /\ LET w == Why(Rec[l]) IN bad' = IF w = "" THEN bad ELSE Append(bad, [i |-> l, why |-> w])
+        /\ LET w == BeyondWhy(Rec[l]) IN byd' = IF w = "" THEN byd ELSE Append(byd, [i |-> l, why |-> w])
+        /\ nbyd' = IF HasPads(Rec[l]) THEN nbyd + Len(Rec[l].pads.items) ELSE nbyd
         /\ l' = l + 1
-Spec == Init /\ [][Next]_<<l, bad>>
-Verdict == l > Len(Rec) => PrintT(<<"VERDICT", ToJson([total |-> Len(Rec), bad |-> bad])>>)
+Spec == Init /\ [][Next]_<<l, bad, byd, nbyd>>
+Verdict == l > Len(Rec) => PrintT(<<"VERDICT", ToJson([total |-> Len(Rec), bad |-> bad, beyond |-> byd, beyond_checked |-> nbyd])>>)
 Complete == IF TLCGet("stats").diameter - 1 = Len(Rec) THEN TRUE
             ELSE PrintT(<<"TRUNCATED", TLCGet("stats").diameter>>) /\ FALSE
 =============================================================================
